@@ -27,6 +27,7 @@ func init() {
 	vHarnesses["vH_C05_livempd_number_subs_wave"] = vH_C05_livempd_number_subs_wave
 	vHarnesses["vH_C05_livempd_time_subs_wave"] = vH_C05_livempd_time_subs_wave
 	vHarnesses["vH_C05_livempd_time_lowlatency"] = vH_C05_livempd_time_lowlatency
+	vHarnesses["vH_C05_livempd_time_ato_complete"] = vH_C05_livempd_time_ato_complete
 	vHarnesses["vH_C05_livempd_number_lowlatency"] = vH_C05_livempd_number_lowlatency
 	vHarnesses["vH_C05_livempd_time_lowlatency_any"] = vH_C05_livempd_time_lowlatency_any
 	vHarnesses["vH_C05_livempd_time_thumbs"] = vH_C05_livempd_time_thumbs
@@ -61,6 +62,9 @@ func vH_C05_livempd_time_subs_wave() {
 func vH_C05_livempd_time_lowlatency() {
 	vLiveMPD(vAsset_testpic_2s(), "Manifest.mpd", 1, 5, vOptLL|vOptLLTable)
 }
+func vH_C05_livempd_time_ato_complete() {
+	vLiveMPD(vAsset_testpic_2s(), "Manifest.mpd", 1, 5, vOptAtoComplete)
+}
 func vH_C05_livempd_number_lowlatency() {
 	vLiveMPD(vAsset_testpic_2s(), "Manifest.mpd", 0, 5, vOptLL|vOptLLTable)
 }
@@ -80,9 +84,13 @@ const (
 	vOptLL    = 4
 	// availabilityTimeOffset from a table of concrete values instead of any millisecond value
 	vOptLLTable = 8
+	// availabilityTimeOffset with complete segments (ato_X without chunkdur_): the offset applies to the timeline, the
+	// publishTime and the advertised attribute alike, availabilityTimeComplete stays true
+	vOptAtoComplete = 16
 )
 
 var vAtoTable = [6]int{1, 250, 500, 1000, 1500, 1999}
+var vAtoTable2 = [2]int{500, 1000}
 
 func vStubQueryEscape(s string) string { return s }
 
@@ -145,6 +153,11 @@ func vLiveMPD(a *asset, mpdName string, mode, maxTsbd, opt int) {
 		}
 		cfg.AvailabilityTimeOffsetS = float64(atoMS) / 1000.0
 		cfg.AvailabilityTimeCompleteFlag = false
+		cfg.LatencyTargetMS = Ptr(3500)
+	}
+	if opt&vOptAtoComplete != 0 {
+		atoMS = vAtoTable2[vConc(vInt("atoIdx2", 0, len(vAtoTable2)-1))]
+		cfg.AvailabilityTimeOffsetS = float64(atoMS) / 1000.0
 		cfg.LatencyTargetMS = Ptr(3500)
 	}
 	hasStop := vBool("hasStop")
@@ -216,6 +229,9 @@ func vLiveMPD(a *asset, mpdName string, mode, maxTsbd, opt int) {
 		vAssert("C05.livempd.no-endNumber", st.EndNumber == nil)
 		repID := as.Representations[0].Id
 		rep := a.Reps[repID]
+		if opt&vOptAtoComplete != 0 && (as.ContentType == "video" || as.ContentType == "audio") {
+			vAssert("C05.livempd.ato.availabilityTimeOffset", float64(st.AvailabilityTimeOffset) == cfg.AvailabilityTimeOffsetS)
+		}
 		if opt&vOptLL != 0 && (as.ContentType == "video" || as.ContentType == "audio") {
 			vAssert("C05.livempd.ll.availabilityTimeOffset", float64(st.AvailabilityTimeOffset) == cfg.AvailabilityTimeOffsetS)
 			vAssert("C05.livempd.ll.availabilityTimeComplete-false", st.AvailabilityTimeComplete != nil && !*st.AvailabilityTimeComplete)
